@@ -38,7 +38,15 @@ theorem gen_fwd_leg (s0 s1 M0 M1 dx efl lam fdx sh0 sh1 : K) :
   refine ⟨?_, ?_, ?_, ?_, ?_, ?_⟩ <;>
     simp only [fpmFwdQ0, fpmFwdQ1, fpmFwdShift0, fpmFwdShift1, fpmFwdSamples0, fpmFwdSamples1, qForSampling,
       Model.C03.axisQ, Model.C03.qForSampling, Model.C03.shiftSamples, ofInt_eq, Int.cast_zero] <;>
-    (try split) <;> (try simp_all) <;> (try ring)
+    first
+      | ring1
+      | (split_ifs with h
+         · ring1
+         · obtain ⟨h1, h2⟩ := not_or.mp h
+           rw [not_not] at h1 h2
+           first
+             | linear_combination (1 - 1 / fdx) * h1
+             | linear_combination (1 - 1 / fdx) * h2)
 
 /-- return leg: per-axis `Q` from the MASK shape and `fpm_dx`, towards the pupil spacing `dx`; output samples = pupil
 shape; the shift it finally hands to the transform is the hand model's `fpmBackShift` -/
@@ -48,20 +56,21 @@ theorem gen_back_leg (s0 s1 M0 M1 dx efl lam fdx sh0 sh1 : K) :
     fpmBackShift0 s0 s1 M0 M1 dx efl lam fdx sh0 sh1 = Model.C03.fpmBackShift sh0 dx fdx ∧
     fpmBackShift1 s0 s1 M0 M1 dx efl lam fdx sh0 sh1 = Model.C03.fpmBackShift sh1 dx fdx ∧
     fpmBackSamples0 s0 s1 M0 M1 dx efl lam fdx sh0 sh1 = s0 ∧ fpmBackSamples1 s0 s1 M0 M1 dx efl lam fdx sh0 sh1 = s1 := by
-  have hs : ∀ a b : K, (if a ≠ 0 ∨ b ≠ 0 then a / dx else a) = a / dx := by
-    intro a b
-    split
-    · rfl
-    · rename_i h; rw [not_or, not_not, not_not] at h; rw [h.1]; simp
-  have hs' : ∀ a b : K, (if a ≠ 0 ∨ b ≠ 0 then b / dx else b) = b / dx := by
-    intro a b
-    split
-    · rfl
-    · rename_i h; rw [not_or, not_not, not_not] at h; rw [h.2]; simp
+  -- semantic, not syntactic: whatever spelling the source uses, in the taken branch both sides are ring-equal, in the
+  -- skipped branch the (possibly re-spelled) shift is zero and both sides vanish
   refine ⟨?_, ?_, ?_, ?_, ?_, ?_⟩ <;>
     simp only [fpmBackQ0, fpmBackQ1, fpmBackShift0, fpmBackShift1, fpmBackSamples0, fpmBackSamples1, qForSampling,
       Model.C03.axisQ, Model.C03.qForSampling, Model.C03.shiftSamples, Model.C03.fpmBackShift, Model.C03.fpmBackShiftArg,
-      ofInt_eq, Int.cast_zero, hs, hs'] <;> (try ring)
+      ofInt_eq, Int.cast_zero] <;>
+    first
+      | ring1
+      | (split_ifs with h
+         · ring1
+         · obtain ⟨h1, h2⟩ := not_or.mp h
+           rw [not_not] at h1 h2
+           first
+             | linear_combination (1 - 1 / dx) * h1
+             | linear_combination (1 - 1 / dx) * h2)
 
 /-- recognisers (AST facts; an unrecognised shape is reported as TIE-DEGRADED and widens the correspondence, a recognised wrong
 one makes this fail): the mask enters as a plain element-wise product of the focal field and that product is what travels back;
